@@ -928,6 +928,30 @@ func genReplayTest(eng *Eng, ri *ReplayInfo, ms *ModelSession) (src string, err 
 	type cl struct{ label, code, err string }
 	var cls []cl
 	var pre []string
+	// the preconditions are evaluated on the materialised input: an input that does not
+	// satisfy them is not a counterexample, whatever the real code does with it
+	var reqs []cl
+	for i, c := range ri.Contract.Requires {
+		label := labelOr(c.Label, i+1)
+		func() {
+			defer func() {
+				if r := recover(); r != nil {
+					if u, ok := r.(racUnsupported); ok {
+						reqs = append(reqs, cl{label: label, err: string(u)})
+						return
+					}
+					panic(r)
+				}
+			}()
+			rc := &rac{m: m, eng: eng, env: env, fn: fn}
+			code := rc.asBool(rc.gen(c.E))
+			if len(rc.pre) > 0 {
+				reqs = append(reqs, cl{label: label, err: "needs old-state snapshots"})
+				return
+			}
+			reqs = append(reqs, cl{label: label, code: code})
+		}()
+	}
 	for i, c := range ri.Contract.Ensures {
 		label := labelOr(c.Label, i+1)
 		func() {
@@ -977,6 +1001,14 @@ func genReplayTest(eng *Eng, ri *ReplayInfo, ms *ModelSession) (src string, err 
 	for _, p := range pre {
 		sb.WriteString("\t" + p + "\n")
 	}
+	sb.WriteString("\trequires := map[string]string{}\n")
+	for _, c := range reqs {
+		if c.err != "" {
+			fmt.Fprintf(&sb, "\trequires[%q] = %q\n", c.label, "unsupported: "+c.err)
+		} else {
+			fmt.Fprintf(&sb, "\trequires[%q] = gClause(func() bool { return %s })\n", c.label, c.code)
+		}
+	}
 	sb.WriteString("\tvar panicked interface{}\n\tfunc() {\n\t\tdefer func() { panicked = recover() }()\n\t\t")
 	if len(resNames) > 0 {
 		sb.WriteString(strings.Join(resNames, ", ") + " = ")
@@ -991,7 +1023,7 @@ func genReplayTest(eng *Eng, ri *ReplayInfo, ms *ModelSession) (src string, err 
 			fmt.Fprintf(&sb, "\t\tclauses[%q] = gClause(func() bool { return %s })\n", c.label, c.code)
 		}
 	}
-	sb.WriteString("\t}\n\tout[\"clauses\"] = clauses\n\tb, _ := json.Marshal(out)\n\tfmt.Printf(\"GOCV-REPLAY %s\\n\", b)\n}\n")
+	sb.WriteString("\t}\n\tout[\"clauses\"] = clauses\n\tout[\"requires\"] = requires\n\tb, _ := json.Marshal(out)\n\tfmt.Printf(\"GOCV-REPLAY %s\\n\", b)\n}\n")
 	return sb.String(), nil
 }
 
@@ -1011,6 +1043,7 @@ type replayOutcome struct {
 	Panicked bool              `json:"panicked"`
 	Panic    string            `json:"panic"`
 	Clauses  map[string]string `json:"clauses"`
+	Requires map[string]string `json:"requires"`
 }
 
 // runReplayTest injects the test into the package of fn through an overlay and runs it.
@@ -1158,6 +1191,18 @@ func replayFromOb(cf *checkFlags, eng *Eng, ob *Obligation, rp map[string]interf
 	}
 	canPanic := ri.Contract.NoPanicCheck || ri.Contract.MayPanic || len(ri.Contract.PanicsIf) > 0
 	confirmed, detail := false, ""
+	var unmet []string
+	for l, v := range ro.Requires {
+		if v == "false" {
+			unmet = append(unmet, l)
+		}
+	}
+	sort.Strings(unmet)
+	if len(unmet) > 0 {
+		rp["last_unconfirmed_test"] = truncate(src, 6000)
+		rp["last_unconfirmed_outcome"] = ro
+		return false, "materialised input does not satisfy precondition(s) " + strings.Join(unmet, ", ") + " (not a counterexample)"
+	}
 	if ro.Panicked && !canPanic {
 		confirmed, detail = true, "confirmed: the real function panics on this input: "+ro.Panic
 	} else {
